@@ -46,9 +46,8 @@ theorem quote_one (v rest : Bytes) : one (quote v ++ rest) = some (.string, (quo
   simp [single, stringEnd_escape]
 
 theorem quote_genuine (v : Bytes) : Genuine (.string, quote v) := by
-  refine ⟨?_, by simp⟩
   have := quote_one v []
-  simpa using this
+  simpa [Genuine] using this
 
 theorem quote_head (v : Bytes) : HeadSep (quote v) := by
   unfold quote
